@@ -337,7 +337,7 @@ class StructGen:
         }
         if op["cls"] == "HandoverVertex" and view.vertices():
             op["heir"] = rng.choice(view.vertices())
-        return op
+        return odd_attrs(rng, self.cfg, op)
 
     # multi-ended links on their own sub-pool -----------------------------------------
     def g_mk_multi(self, rng, view, namer):
@@ -352,7 +352,11 @@ class StructGen:
             )
         if self.cfg.get("multi_no_repeat"):
             ends = list(dict.fromkeys(ends))
-        return {"op": "mk_multi", "new": namer.new("m"), "ends": ends}
+        op = {"op": "mk_multi", "new": namer.new("m"), "ends": ends}
+        if rng.random() < self.cfg.get("p_arg_kind", 0.35):
+            # (no kind that drops repeated items: a link may name a vertex twice)
+            op["as"] = rng.choice(["tuple", "iter", "gen", "reversed2"])
+        return op
 
     def _mv_and_multi(self, rng, view, member):
         ms = view.multis()
@@ -568,18 +572,40 @@ class StructGen:
         }
 
 
+def odd_attrs(rng, cfg, op):
+    """
+    User attributes that are legal but unusual: names that begin with two
+    underscores, one-shot iterators as values (only where the configuration
+    asks for them).
+    """
+    p = cfg.get("p_odd_attrs")
+    if p and rng.random() < p:
+        attrs = {}
+        if rng.random() < 0.6:
+            attrs[rng.choice(["__tag", "__origin", "__make_pyvis_net_j"])] = rng.randrange(4)
+        if rng.random() < 0.6:
+            attrs[rng.choice(["colour", "note"])] = {"$iter": rng.randint(1, 4)}
+        if attrs:
+            op["attrs"] = attrs
+    return op
+
+
 def setup_ops(rng, cfg, namer):
     """The operations that create the initial pools of a run."""
     ops = []
     vclasses = cfg.get("vertex_classes", ["Vertex"])
     for _ in range(cfg.get("nv", 3)):
         ops.append(
-            {
-                "op": "mk_vertex",
-                "new": namer.new("v"),
-                "cls": rng.choice(vclasses),
-                "tag": rng.randrange(6),
-            }
+            odd_attrs(
+                rng,
+                cfg,
+                {
+                    "op": "mk_vertex",
+                    "new": namer.new("v"),
+                    "cls": rng.choice(vclasses),
+                    "tag": rng.randrange(6),
+                },
+            )
         )
     if cfg.get("multi"):
         for _ in range(cfg.get("nmv", 2)):
